@@ -479,6 +479,33 @@ func (pr *ProtoArray) FindHead(anchorRoot Root, anchorSlot Slot) (NodeRef, error
 	if bestDescIndex == NONE {
 		bestDescIndex = anchorIndex
 	}
+	// A start on an empty slot above the first slot known for its root (a checkpoint whose epoch starts on an empty slot):
+	// the blocks built on that root hang off the root's first node (see ProcessBlock), not off the start node. Those after the
+	// start slot descend from the start all the same: choose among them and the next empty slot, as OnPrune arranges it for good.
+	if lowSlot := pr.blockSlots[anchorRoot]; anchorNode.ParentRoot == anchorRoot && lowSlot < anchorSlot {
+		lowIndex := pr.indices[NodeRef{Root: anchorRoot, Slot: lowSlot}]
+		bestDescIndex = anchorIndex
+		var best *ProtoNode
+		for i := range pr.nodes {
+			n := &pr.nodes[i]
+			if n.ForkchoiceParent != anchorIndex && !(n.ForkchoiceParent == lowIndex &&
+				n.ParentRoot == anchorRoot && n.Ref.Root != anchorRoot && n.Ref.Slot > anchorSlot) {
+				continue
+			}
+			leads, err := pr.nodeLeadsToViableHead(n)
+			if err != nil {
+				return NodeRef{}, err
+			}
+			if leads && (best == nil || n.Weight > best.Weight ||
+				(n.Weight == best.Weight && bytes.Compare(n.Ref.Root[:], best.Ref.Root[:]) > 0)) {
+				best = n
+				bestDescIndex = n.BestDescendant
+				if bestDescIndex == NONE {
+					bestDescIndex = pr.indexOffset + NodeIndex(i)
+				}
+			}
+		}
+	}
 	bestNode, err := pr.getNode(bestDescIndex)
 	if err != nil {
 		return NodeRef{}, err
